@@ -99,6 +99,11 @@ pub fn exec_stage(sc: &Scenario, prop: &'static str) -> Report {
             }
         }
         r.probe_n("skipped_ops", st.skipped_ops);
+        if sc.c("pty") == 1 {
+            r.probe(if st.term.is_pty() { "pty_runs" } else { "pty_unavailable" });
+            let b = st.term.lock().pty.as_ref().map_or(0, |p| p.bytes);
+            r.probe_n("pty_bytes", b);
+        }
         r.nontrivial = executed >= 3 && painted >= 2 && !r.inconclusive;
         st.teardown();
         r
@@ -277,6 +282,12 @@ impl Check for TermCheck {
         let force_bottom = std::env::var_os("VERIF_FORCE_BOTTOM").is_some();
         sc.set("bottom", (multi && fl != Flavor::C16 && (force_bottom || rng.chance(1, 3))) as u64);
         sc.set("xcheck", rng.chance(1, 8) as u64);
+        // a small share of the runs draws through a real console::Term on a kernel pty
+        if fl != Flavor::C16 && rng.chance(1, if tier == Tier::Quick { 40 } else { 25 }) {
+            sc.set("pty", 1);
+            sc.set("xcheck", 0);
+            sc.mode = format!("{}+pty", sc.mode);
+        }
         let special = rng.chance(1, 2);
         let w = w as usize;
         let max_ops = match tier {
